@@ -194,7 +194,8 @@ def run(ctx):
     recs = pool.collect(ctx, [dict(gen="g2", count=70 * k, modes=["plain"], nexec=n, reference=True, opts={"order": "perm"}),
                               dict(gen="g2", count=30 * k, modes=["plain"], nexec=n, reference=True, opts={"order": "levelsorted"}),
                               dict(gen="g2", count=20 * k, modes=["plain"], nexec=n, reference=True, opts={"order": "none"}),
-                              dict(gen="g2deep", count=6 * k, modes=["plain"], nexec=n, reference=True)])
+                              dict(gen="g2deep", count=6 * k, modes=["plain"], nexec=n, reference=True),
+                              dict(gen="g2casc", count=30 * k, modes=["plain"], nexec=n, reference=True)])
     check_records(ctx, recs, reject_is_violation=True)
     check_model(ctx, recs)
 
